@@ -137,6 +137,9 @@ pub struct Call {
     pub arg: u8,
     /// 0 = the original instance, k>0 = clone number k (mod the number of clones)
     pub via: u8,
+    /// the call is made by a destructor that runs while the thread unwinds from a (caught) user panic
+    #[serde(default)]
+    pub unwinding: bool,
 }
 
 #[derive(Clone, Copy, Debug, PartialEq, Eq, Hash, Serialize, Deserialize)]
